@@ -193,7 +193,7 @@ class CleanStream(Stream):
     needs_scratch_home = True
     n_hashseeds = 8
     shard_size = 60
-    impl_timeout = 900
+    impl_timeout = 2400
     rule = ("real clean(id, run_dir, parse_rm_dirs(patterns)|None) on generated scratch trees: run dir content with "
             "files/dirs/symlinks (to outside dirs and files, broken, relative with .., into the run dir), standard symlink "
             "dirs (valid, broken, invalid, nested share/cycle, the run dir itself), sentinels outside, runN/_cylc-install "
